@@ -155,6 +155,27 @@ def evaluate(case):
     with repo_call('radial_solver[R1]'):
         s1, _ = rc.solve(spec, nondim=not spec['opts']['nondim'], **tidal_only)
     compare('R1', s1)
+    if s1.success:
+        # the radial functions themselves (observed at the slices that are end points of an integration: first and
+        # last slice of every layer) must not depend on the internal non-dimensionalisation either
+        ra, rb = np.array(s0.result), np.array(s1.result)
+        rt = np.array(s0t.result)
+        bidx = sorted(set(sum([[st_, st_ + ct_ - 1] for st_, ct_, k_ in zip(A['starts'], A['counts'], ks) if k_[0] == 'solid'], [])))
+        # (solid layers only: y3 of a dynamic liquid is reconstructed as (g y1 - y2/rho - y5)/(w^2 r), a difference of
+        #  large terms whose value depends on the absolute tolerance's units - numerically fragile, and not a Love number)
+        for row in range(6):
+            m = np.isfinite(ra[row])
+            if not np.any(m):
+                continue
+            sc = float(np.max(np.abs(ra[row][m])))
+            for i in bidx:
+                if np.isfinite(ra[row, i]) or np.isfinite(rb[row, i]):
+                    d = abs(ra[row, i] - rb[row, i])
+                    nz = abs(ra[row, i] - rt[row, i])          # how well this number is determined at all (y3 in a
+                    nz = nz if np.isfinite(nz) else 0.0         # dynamic liquid is a difference of large terms / w^2 r)
+                    c.check(np.isfinite(d) and d <= (1e-5 + 1000.0 * delta) * sc + 30.0 * nz, {'clause': 'R1', 'what': 'rows'},
+                            'row y%d at slice %d: %r (nondim=%s) vs %r, scale %.3e' % (row + 1, i, complex(ra[row, i]),
+                                                                                    spec['opts']['nondim'], complex(rb[row, i]), sc))
     # R2 ---------------------------------------------------------------------------------------------------------
     a = 10.0 ** case['loga']
     spec2 = dict(spec, R=spec['R'] * a, layers=[dict(L, mu=[L['mu'][0] * a * a, L['mu'][1] * a * a], K=L['K'] * a * a)
